@@ -11,6 +11,7 @@ fn main() {
         std::process::exit(mc::engine::run::replay_file(path));
     }
     if args[1] == "c13-debug" { std::process::exit(mc::drivers::debug_plan(&args[2], args.get(3).map(|s| s.as_str()).unwrap_or(""))); }
+    if args[1] == "families" { let tier = if args.get(2).map(|s| s.as_str()) == Some("thorough") { Tier::Thorough } else { Tier::Quick }; std::process::exit(mc::engine::run::debug_families(tier)); }
     if args[1] == "debug-determinism" {
         let tier = if args.get(3).map(|s| s.as_str()) == Some("thorough") { Tier::Thorough } else { Tier::Quick };
         std::process::exit(mc::engine::run::debug_determinism(&args[2], tier, args.get(4).and_then(|s| s.parse().ok()).unwrap_or(0)));
